@@ -118,8 +118,6 @@ def expand_event(M: Model, ev: Event, depth: int = 0) -> list[Event]:
         g = rv.args[0].generators[0]
         if isinstance(g.target, ast.Name):
             return [clone(rv.args[0].elt, inline_sel=(g.target.id, g.iter, list(g.ifs))), *expand_event(M, clone(rv.args[1]), depth + 1)]
-    if isinstance(rv, ast.BoolOp) and isinstance(rv.op, ast.Or) and len(rv.values) == 2:
-        return [ev]
     return [ev]
 
 
@@ -293,6 +291,11 @@ def _followed_by_break(M: Model, st: ast.AST, loop: ast.AST) -> bool:
 def _comp_of(M: Model, e: ast.expr):
     """(candidate var, domain, ifs) of a single-generator comprehension / filter whose element is its own variable"""
     e2 = M.resolve(e) if not isinstance(e, (ast.GeneratorExp, ast.ListComp, ast.SetComp)) else e
+    while isinstance(e2, ast.Call) and isinstance(e2.func, ast.Name) and e2.func.id in ("list", "tuple", "iter") and len(e2.args) == 1 and not e2.keywords:
+        e2 = e2.args[0]
+    if isinstance(e2, ast.Call) and isinstance(e2.func, ast.Name) and e2.func.id == "filter" and len(e2.args) == 2 and isinstance(e2.args[0], ast.Lambda) and len(e2.args[0].args.args) == 1 and not e2.args[0].args.defaults:
+        var = e2.args[0].args.args[0].arg
+        return var, M.resolve(e2.args[1]), [M.resolve(e2.args[0].body, frozenset({var}))]
     if isinstance(e2, (ast.GeneratorExp, ast.ListComp, ast.SetComp)) and len(e2.generators) == 1:
         g = e2.generators[0]
         if isinstance(g.target, ast.Name) and isinstance(e2.elt, ast.Name) and e2.elt.id == g.target.id:
@@ -727,27 +730,44 @@ def labels(C) -> None:
             return  # nothing is handed to the backend: reported by R5
         C.unsure(r3, "one label per node", "the value handed to the backend as 'labels' was not identified")
         return
-    root = M.root_name(C.label_value)
-    bs = M.binds.get(root or "", [])
-    if root is None or not bs:
+    mode, roots = label_roots(M, C.label_value)
+    if not roots:
         C.unsure(r3, "one label per node", f"the labels handed to the backend (`{norm(C.label_value, 60)}`) are not a mapping built in the flattened draw()", C.label_store)
         return
-    init_ok = len(bs) == 1 and bs[0].kind == "assign" and (
-        (isinstance(bs[0].value, ast.Dict) and not bs[0].value.keys) or (isinstance(bs[0].value, ast.Call) and isinstance(bs[0].value.func, ast.Name) and bs[0].value.func.id == "dict" and not bs[0].value.args and not bs[0].value.keywords)
-    )
-    if not init_ok:
-        C.unsure(r3, "one label per node", f"the label mapping `{root}` does not start out as an empty dict filled in draw() (`{norm(bs[0].value, 60) if bs[0].value is not None else bs[0].kind}`)", bs[0].stmt)
-        return
-    events, odd = collect_events(M, root)
-    events = [x for ev in events for x in expand_event(M, ev)]
-    for ev in events:
-        place_event(M, ev)
-    label_names = _dict_names(M, root)
-    hidden = remaining_helper_calls(C, about=lambda e: isinstance(e, ast.Name) and e.id in label_names)
-    if hidden:
-        odd.append(f"`{norm(hidden[0], 60)}` receives the label mapping but could not be flattened into draw()")
-    # ---- R3: every node, exactly one label
-    _rule_every_node(C, events, odd, root)
+    events: list[Event] = []
+    label_names: set[str] = set()
+    verdicts = []
+    for root in roots:
+        bs = M.binds.get(root, [])
+        init_ok = len(bs) == 1 and bs[0].kind == "assign" and (
+            (isinstance(bs[0].value, ast.Dict) and not bs[0].value.keys) or (isinstance(bs[0].value, ast.Call) and isinstance(bs[0].value.func, ast.Name) and bs[0].value.func.id == "dict" and not bs[0].value.args and not bs[0].value.keywords)
+        )
+        if not init_ok:
+            C.unsure(r3, "one label per node", f"the label mapping `{root}` does not start out as an empty dict filled in draw() (`{norm(bs[0].value, 60) if bs and bs[0].value is not None else (bs[0].kind if bs else 'unbound')}`)", bs[0].stmt if bs else C.label_store)
+            return
+        evs, odd = collect_events(M, root)
+        evs = [x for ev in evs for x in expand_event(M, ev)]
+        for ev in evs:
+            place_event(M, ev)
+        names_ = _dict_names(M, root)
+        hidden = remaining_helper_calls(C, about=lambda e, names_=names_: isinstance(e, ast.Name) and e.id in names_)
+        if hidden:
+            odd.append(f"`{norm(hidden[0], 60)}` receives the label mapping but could not be flattened into draw()")
+        verdicts.append(_rule_every_node(C, evs, odd, root))
+        events += evs
+        label_names |= names_
+    # ---- R3: every node, exactly one label (alternative mappings: each of them; merged mappings: one of them covers all nodes)
+    what = "one label per node"
+    oks = [v for v in verdicts if v[0] == "ok"]
+    bads = [v for v in verdicts if v[0] == "bad"]
+    uns = [v for v in verdicts if v[0] == "unsure"]
+    if (mode == "merge" and oks) or (mode != "merge" and len(oks) == len(verdicts)):
+        C.ok(r3, what, oks[0][1], oks[0][2])
+    elif uns or (mode == "merge" and len(roots) > 1):
+        v = (uns or bads)[0]
+        C.unsure(r3, what, v[1], v[2])
+    else:
+        C.bad(r3, what, bads[0][1], bads[0][2])
     # ---- kinds of events
     for ev in events:
         if ev.value is None:
@@ -772,6 +792,46 @@ def labels(C) -> None:
     _rule_aliased(C, aliased, events, label_names)
 
 
+def label_roots(M: Model, e: ast.expr, depth: int = 0) -> tuple[str, list[str]]:
+    """Locals that hold the label mapping: ('one', [x]) | ('alt', [...]) when different paths hand over different mappings |
+    ('merge', [...]) for `{**a, **b}` / `a | b`."""
+    if depth > 6:
+        return "one", []
+    if isinstance(e, ast.Dict) and e.keys and all(k is None for k in e.keys):
+        out: list[str] = []
+        for v in e.values:
+            _m, r = label_roots(M, v, depth + 1)
+            if not r:
+                return "merge", []
+            out += r
+        return "merge", out
+    if isinstance(e, ast.BinOp) and isinstance(e.op, ast.BitOr):
+        _m1, r1_ = label_roots(M, e.left, depth + 1)
+        _m2, r2_ = label_roots(M, e.right, depth + 1)
+        return "merge", (r1_ + r2_ if r1_ and r2_ else [])
+    if isinstance(e, ast.Call) and ((isinstance(e.func, ast.Name) and e.func.id == "dict" and len(e.args) == 1 and not e.keywords) or (isinstance(e.func, ast.Attribute) and e.func.attr == "copy" and not e.args)):
+        return label_roots(M, e.args[0] if isinstance(e.func, ast.Name) else e.func.value, depth + 1)
+    if isinstance(e, ast.Name):
+        bs = M.binds.get(e.id, [])
+        if len(bs) == 1 and bs[0].kind == "assign" and bs[0].value is not None:
+            v = bs[0].value
+            if isinstance(v, (ast.Name, ast.BinOp)) or (isinstance(v, ast.Dict) and v.keys and all(k is None for k in v.keys)) or (isinstance(v, ast.Call) and ((isinstance(v.func, ast.Name) and v.func.id == "dict" and len(v.args) == 1) or (isinstance(v.func, ast.Attribute) and v.func.attr == "copy"))):
+                return label_roots(M, v, depth + 1)
+            return "one", [e.id]
+        if len(bs) > 1 and all(b.kind == "assign" and b.value is not None for b in bs):
+            out = []
+            mode = "alt"
+            for b in bs:
+                m_, r = label_roots(M, b.value, depth + 1)
+                if not r:
+                    return "alt", []
+                if m_ == "merge":
+                    mode = "merge-alt"
+                out += r
+            return ("alt" if mode == "alt" else "merge"), list(dict.fromkeys(out))
+    return "one", []
+
+
 def _uses_selection(M: Model, v: ast.AST) -> bool:
     for x in ast.walk(v):
         if isinstance(x, ast.Name):
@@ -781,7 +841,7 @@ def _uses_selection(M: Model, v: ast.AST) -> bool:
     return False
 
 
-def _rule_every_node(C, events: list[Event], odd: list[str], root: str) -> None:
+def _rule_every_node(C, events: list[Event], odd: list[str], root: str) -> tuple:
     M: Model = C.M
     r3 = "C17.R3"
     what = "one label per node"
@@ -821,22 +881,21 @@ def _rule_every_node(C, events: list[Event], odd: list[str], root: str) -> None:
         else:
             gaps.append((L, leak))
     if total is not None:
-        C.ok(r3, what, f"every node of the graph gets a label on every path through `{norm(total[0].target)} in {norm(total[0].iter, 40)}`", total[0])
-        return
+        return ("ok", f"every node of the graph gets a label on every path through `{norm(total[0].target)} in {norm(total[0].iter, 40)}`", total[0])
     filt = [ev for ev in events if ev.domain == "filtered"]
     al = [ev for ev in events if ev.domain == "aliased"]
     if odd:
-        C.unsure(r3, what, "; ".join(odd[:2]), C.label_store)
+        return ("unsure", "; ".join(odd[:2]), C.label_store)
     elif filt:
-        C.bad(r3, what, f"not every node of the graph gets a label: labels are stored for `{norm(M.resolve(filt[0].nloop.iter), 80)}` only", filt[0].node)
+        return ("bad", f"not every node of the graph gets a label: labels are stored for `{norm(M.resolve(filt[0].nloop.iter), 80)}` only", filt[0].node)
     elif gaps:
-        C.bad(r3, what, f"not every node of the graph gets a label: {gaps[0][1]} (`for {norm(gaps[0][0].target)} in {norm(gaps[0][0].iter, 40)}`)", gaps[0][0])
+        return ("bad", f"not every node of the graph gets a label: {gaps[0][1]} (`for {norm(gaps[0][0].target)} in {norm(gaps[0][0].iter, 40)}`)", gaps[0][0])
     elif al:
-        C.bad(r3, what, "not every node of the graph gets a label: labels are keyed by the aliased modules only", al[0].node)
+        return ("bad", "not every node of the graph gets a label: labels are keyed by the aliased modules only", al[0].node)
     elif not events:
-        C.unsure(r3, what, f"nothing is stored into the label mapping `{root}` in the flattened draw()", C.label_store)
+        return ("unsure", f"nothing is stored into the label mapping `{root}` in the flattened draw()", C.label_store)
     else:
-        C.unsure(r3, what, f"`{norm(events[0].node, 70)}`: the key is not the variable of a loop over the graph's nodes", events[0].node)
+        return ("unsure", f"`{norm(events[0].node, 70)}`: the key is not the variable of a loop over the graph's nodes", events[0].node)
 
 
 def _rule_default(C, events: list[Event]) -> None:
